@@ -228,6 +228,85 @@ fn one_case(ctx: &Ctx, case: u64, l: &mut Local) {
             (Expect::NotAsserted, o) => l.count(&format!("not-asserted.{}.{}", name, o.class())),
         }
     }
+    // ---- the same window for RSA / P-384 issuers (signing oracle only; every 8th case)
+    if case % 8 == 0 {
+        for an in crate::keys::EXTRA_ALGS {
+            for (name, exp, nbf, expect_ok) in [
+                ("valid", Some(t0 + 7200), None, true),
+                ("valid-nbf-past", Some(t0 + 7200), Some(t0 - 7200), true),
+                ("expired", Some(t0 - 7200), None, false),
+                ("nbf-future", Some(t0 + 2 * 86_400), Some(t0 + 86_400), false),
+                ("exp-absent", None, None, false),
+                ("exp-string", None, None, false),
+            ] {
+                let mut pl = json!({"iss": "https://issuer.example/A", "k#9;": [1, {"a": null}]});
+                if let Some(e) = exp {
+                    pl["exp"] = json!(e);
+                }
+                if name == "exp-string" {
+                    pl["exp"] = json!("4000000000");
+                }
+                if let Some(n) = nbf {
+                    pl["nbf"] = json!(n);
+                }
+                let mut h = jsonwebtoken::Header::new(crate::keys::extra_alg(an));
+                h.typ = None;
+                let jwt = match jsonwebtoken::encode(&h, &pl, &crate::keys::extra_enc(an)) {
+                    Ok(j) => j,
+                    Err(_) => continue,
+                };
+                let parts = Parts { jwt, disclosures: vec![], kb: None };
+                let v = api::verify(&parts.encode(fmt, 0).unwrap_or_default(), &Resolver::Extra(an), None, fmt);
+                l.evals += 1;
+                match (expect_ok, &v.out) {
+                    (_, p @ Outcome::Panic(..)) => l.violate(Violation { subcheck: "panic".into(), class: format!("{an} {name}"), observed: p.panic_signature().unwrap(), case, detail: json!({"alg": an, "variant": name}) }),
+                    (true, Outcome::Ok(_)) => l.count("extra-alg.must-accept.accepted"),
+                    (false, Outcome::Err(_)) => l.count("extra-alg.must-reject.rejected"),
+                    (true, Outcome::Err(e)) => l.violate(Violation { subcheck: "rejected-inside-window".into(), class: format!("issuer algorithm {an}: {name}"), observed: format!("Err({})", e.chars().take(80).collect::<String>()), case, detail: json!({"alg": an, "payload": pl}) }),
+                    (false, Outcome::Ok(_)) => l.violate(Violation { subcheck: format!("accepted-outside-window-{}", if name == "nbf-future" { "nbf" } else { "exp" }), class: format!("issuer algorithm {an}: {name}"), observed: "Ok".into(), case, detail: json!({"alg": an, "payload": pl}) }),
+                }
+            }
+        }
+    }
+    // ---- key binding with a KB-JWT whose own iat is back- or forward-dated (signing oracle): the
+    // credential's window is judged by the verifier's clock, not by what the holder wrote
+    if let Some((halg, hidx)) = cfg.holder {
+        let base_pl = |exp: Option<u64>, nbf: Option<u64>| -> Value {
+            let mut p = base.clone();
+            p.remove("exp");
+            p.remove("nbf");
+            if let Some(e) = exp {
+                p.insert("exp".into(), json!(e));
+            }
+            if let Some(n) = nbf {
+                p.insert("nbf".into(), json!(n));
+            }
+            Value::Object(p)
+        };
+        for (name, exp, nbf, kb_iat, expect_ok) in [
+            ("expired, KB iat before expiry", Some(t0 - 7200), None, t0 - 10_000, false),
+            ("expired, KB iat far in the past", Some(t0 - 86_400), None, 1_000_000_000, false),
+            ("not yet valid, KB iat in the future", Some(t0 + 2 * 86_400), Some(t0 + 86_400), t0 + 90_000, false),
+            ("valid, KB iat in the past", Some(t0 + 7200), None, t0 - 86_400, true),
+            ("valid, KB iat now", Some(t0 + 7200), None, t0, true),
+        ] {
+            let jwt = api::sign_payload(cfg.alg, 0, &base_pl(exp, nbf), None);
+            let ds: Vec<String> = vec![];
+            let mut hashed = jwt.clone();
+            hashed.push('~');
+            let kbp = json!({"nonce": "n", "aud": "a", "iat": kb_iat, "sd_hash": crate::model::digest_of(&hashed)});
+            let parts = Parts { jwt, disclosures: ds, kb: Some(api::sign_kb(halg, hidx, &kbp, Some("kb+jwt"))) };
+            let v = api::verify(&parts.encode(fmt, 0).unwrap_or_default(), &resolver, Some(("a", "n")), fmt);
+            l.evals += 1;
+            match (expect_ok, &v.out) {
+                (_, p @ Outcome::Panic(..)) => l.violate(Violation { subcheck: "panic".into(), class: name.into(), observed: p.panic_signature().unwrap(), case, detail: json!({"variant": name}) }),
+                (true, Outcome::Ok(_)) => l.count("kb-iat.must-accept.accepted"),
+                (false, Outcome::Err(_)) => l.count("kb-iat.must-reject.rejected"),
+                (true, Outcome::Err(e)) => l.violate(Violation { subcheck: "rejected-inside-window".into(), class: format!("key binding: {name}"), observed: format!("Err({})", e.chars().take(80).collect::<String>()), case, detail: json!({"config": cfg.describe(), "kb_iat": kb_iat, "t": t0}) }),
+                (false, Outcome::Ok(_)) => l.violate(Violation { subcheck: format!("accepted-outside-window-{}", if nbf.is_some() { "nbf" } else { "exp" }), class: format!("key binding: {name}"), observed: "Ok".into(), case, detail: json!({"config": cfg.describe(), "kb_iat": kb_iat, "exp": exp, "nbf": nbf, "t": t0}) }),
+            }
+        }
+    }
     let _ = (ALL_ALGS, FMTS, Alg::ES256, Fmt::Json);
 }
 
